@@ -346,6 +346,9 @@ def run(ctx):
     if ctx.tier != "quick":
         pc += [{"shape": [3, 3], "fvals": [0, 1, 2], "slice": [lo, lo + 200]} for lo in range(0, 3**9, 200)]
     ctx.run_cases(case_percentile, pc, sub="percentile", chunksize=1)
+    from vf import callerenv
+    callerenv.run(ctx, case_percentile, pc[:2] + pc[-1:])
+    callerenv.run(ctx, case_builtin, [{"seed": ctx.seed}])
     errorpaths.run_threaded(ctx, case_percentile, pc[:1], threads=(2, 3))
     ctx.run_cases(case_builtin, [{"seed": ctx.seed + k} for k in range(8)], sub="built-in base functions")
     ctx.run_cases(case_sparse_generic, [{"seed": ctx.seed + k} for k in range(16)], sub="support-at-p=1")
